@@ -44,3 +44,25 @@ for n in sorted(os.listdir(sd)):
             by = ["undecided only (exit 2)"]
         by = ", ".join(by)
     print("| %s | %s | %s | %s |" % (n, (m.get("summary") or "").replace("|", "/").replace("\n", " ")[:170], res, by))
+
+
+print()
+print("| behaviour-preserving change | depth | what it does (summary by its author) | quick check |")
+print("|---|---|---|---|")
+bd = os.path.join(ROOT, "benign")
+tot = {}
+for n in sorted(os.listdir(bd)) if os.path.isdir(bd) else []:
+    mp = os.path.join(bd, n, "meta.json")
+    if not os.path.exists(mp):
+        continue
+    m = json.load(open(mp))
+    r = (m.get("check_results", {}) or {}).get("quick")
+    if not r:
+        res = "not run"
+    else:
+        res = {0: "silent (exit 0)", 1: "FALSE ALARM (exit 1)", 2: "undecided (exit 2, %d obligations not re-proved, nothing refuted)" % r.get("n_undecided", 0),
+               3: "checker failure (exit 3)"}.get(r["exit"], "exit %s" % r["exit"])
+        tot[r["exit"]] = tot.get(r["exit"], 0) + 1
+    print("| %s | %s | %s | %s |" % (n, m.get("depth", ""), (m.get("summary") or "").replace("|", "/").replace("\n", " ")[:150], res))
+print()
+print("benign totals by exit code: %s" % dict(sorted(tot.items())))
